@@ -298,6 +298,10 @@ var otherRecvs = []otherRecv{
 	{"(5:2:-1)", []string{"5", "4", "3"}},
 	{"{a: 1, b: 2, _c: 3}", []string{`["a", 1]`, `["b", 2]`}},
 	{"%{'x: 1, 'y: 2}", []string{`["x", 1]`, `["y", 2]`}},
+	// a map with scalar and other keys mixed: scalar keys in insertion order, then the others in insertion order
+	{"%{'x: 1, [7]: 2, 'y: 3, {k: 0}: 4, [8]: 5}", []string{`["x", 1]`, `["y", 3]`, `[[7], 2]`, `[{"k": 0}, 4]`, `[[8], 5]`}},
+	{"%{[7]: 1, [8]: 2}", []string{`[[7], 1]`, `[[8], 2]`}},
+	{"('d:'a:-1)", []string{`"d"`, `"c"`, `"b"`}},
 	{"<{|i| yield i if i < 3; recur(i + 1)}>.new(0)", []string{"0", "1", "2"}},
 	{"[]", nil},
 	{"0", nil},
